@@ -58,7 +58,15 @@ S7 == TStruct(Nm(83, 7), <<Field(fa, TInt, FALSE, FALSE), Field(fb, TInt, FALSE,
 \* a kinded union whose list-kind member is a listpairs struct, next to a map-kind member with renames
 U4 == TUnion(Nm(85, 4), <<S5, TString, S6>>, UKinded)
 
-Types == <<S1, S2, S3, S4, S5, L1, L2, M1, U1, U2, U3, E1, E2, M2, R1, R2, R3, R4, R5, R6, R7, R8, R9, S6, S7, U4>>
+\* depth-2 types inside the code generator's feature set (no enum, no listpairs)
+R10 == TStruct(Nm(84, 0), <<Field(ff, S6, FALSE, FALSE), Field(fg, U1, TRUE, FALSE), Field(fh, L2, FALSE, TRUE)>>,
+               RMap(<<<<70>>, fg, fh>>))
+R11 == TUnion(Nm(84, 1), <<S2, U2, L1>>, UKeyed(<<<<116, 119, 111>>, <<107>>, <<108>>>>))
+R12 == TUnion(Nm(84, 2), <<S6, S3, TInt, TBool, TString>>, UKinded)
+R13 == TMap(Nm(84, 3), S3, TRUE)
+
+Types == <<S1, S2, S3, S4, S5, L1, L2, M1, U1, U2, U3, E1, E2, M2, R1, R2, R3, R4, R5, R6, R7, R8, R9, S6, S7, U4,
+           R10, R11, R12, R13>>
 
 \* ---- inhabitants (typed values in canonical type-level form)
 IntVals == {Scalar("int", <<0, 1>>), Scalar("int", <<0, 2>>)}
